@@ -33,10 +33,11 @@ structure Fixes where
   chanNotFound : Bool   -- channelHandler answers 404 when no node reports the channel
   nilPct       : Bool := true   -- E2eProcessingLatencyAggregate.UnmarshalJSON drops null percentile entries (F53)
   clearNodes   : Bool := true   -- GetNSQDStats discards a `nodes` member sent by the upstream (F54)
+  inactiveErrs : Bool := true   -- topicsHandler `?inactive=true` reports the errors of its per-topic fetches (F58)
 deriving DecidableEq, Repr
 
-def Fixes.all : Fixes := ⟨true, true, true, true, true, true⟩
-def Fixes.unfixed : Fixes := ⟨false, false, false, false, false, false⟩
+def Fixes.all : Fixes := ⟨true, true, true, true, true, true, true⟩
+def Fixes.unfixed : Fixes := ⟨false, false, false, false, false, false, false⟩
 
 /-! ### What the upstreams say -/
 
@@ -134,10 +135,11 @@ deriving DecidableEq, Repr
 
 structure Info where
   hostname : String
-  addr : String
+  addr : String                      -- `broadcast_address:http_port` as the answer gives it (":0" when both are missing)
   tcp : String
   version : String
   ver : Nat × Nat × Nat
+  noBcast : Bool := false            -- the answer has no (or an empty) `broadcast_address` (an nsqd from before that member)
 deriving DecidableEq, Repr
 
 /-- One nsqlookupd: its answers (`none` = failed). -/
@@ -154,12 +156,24 @@ structure Nsqd where
   info : Option Info
   stats : Option (List (Option Topic))
   filters : Bool                    -- honours `topic=` / `channel=` / `include_clients=false`
+  host : String := "127.0.0.1"      -- host part of the address it is configured under (`net.SplitHostPort(addr)`)
+deriving Repr
+
+/-- What nsqlookupd `lk` answers to `/lookup?topic=` and `/channels?topic=` for one particular topic (the
+`?inactive=true` variant of `/api/topics` asks both for every topic). Without an entry for (lk, topic) the
+nsqlookupd answers `/lookup` with its `lookup` member and `/channels` with an empty list. -/
+structure TopicAns where
+  lk : String
+  topic : String
+  lookup : Option (List (Option ProducerJSON))
+  channels : Option (List String)
 deriving Repr
 
 structure World where
   lookupds : List Lookupd           -- configured nsqlookupds ([] = direct-nsqd mode)
   nsqdAddrs : List String           -- configured nsqds (direct mode)
   nsqds : List Nsqd                 -- every nsqd that exists
+  perTopic : List TopicAns := []
 deriving Repr
 
 /-! ### Sorting and de-duplication of names (stringy.Uniq / stringy.Add, sort.Strings) -/
@@ -378,8 +392,15 @@ def lookupdTopicProducers (fx : Fixes) (ls : List Lookupd) : Except Fault (Fetch
     if failed == ls.length then .ok .allFailed
     else .ok (.got ps failed)
 
+def hostOf (w : World) (addr : String) : String :=
+  match nsqdAt w addr with
+  | none => ""
+  | some n => n.host
+
 /-- Direct mode, one nsqd: `/stats?topic=` and, if it lists the topic, `/info`.
-`none` = an error was recorded; `some none` = answered but does not produce the topic. -/
+`none` = an error was recorded; `some none` = answered but does not produce the topic.
+Unlike GetNSQDProducers, this function falls back on the configured address when `/info` has no
+`broadcast_address` (address and HTTP port are both replaced) and on its host part when `hostname` is empty. -/
 def nsqdTopicProducer (w : World) (topic addr : String) : Option (Option Producer) :=
   match statsOf w addr topic "" false with
   | none => none
@@ -388,7 +409,10 @@ def nsqdTopicProducer (w : World) (topic addr : String) : Option (Option Produce
       (match infoOf w addr with
        | none => none
        | some i =>
-         some (some { hostname := i.hostname, addr := i.addr, tcp := i.tcp, version := i.version, ver := i.ver, remote := "",
+         some (some { hostname := if i.hostname == "" then hostOf w addr else i.hostname,
+                      addr := if i.noBcast then addr else i.addr,
+                      tcp := if i.noBcast then hostOf w addr ++ i.tcp else i.tcp,
+                      version := i.version, ver := i.ver, remote := "",
                       topics := (topicNames ts).map (fun n => ⟨n, false⟩) }))
     else some none
 
@@ -639,6 +663,7 @@ inductive Body
   | nodes (ps : List Producer)
   | node (name : String) (topics : List TopicNode) (totalMessages totalClients : Int)
   | counter (stats : List (String × Int))
+  | inactive (m : List (String × List String))
   | none
 deriving Repr
 
@@ -656,6 +681,7 @@ inductive Request
   | nodes
   | node (addr : String)
   | counter
+  | topicsInactive                   -- `/api/topics?inactive=true`
 deriving Repr
 
 /-- A handler panic is recovered by the router (`LogPanicHandler`): answer 500. A panic in a fetch
@@ -666,6 +692,80 @@ def topicsView (w : World) : View :=
   match (if !w.lookupds.isEmpty then lookupdTopics w.lookupds else nsqdTopics w) with
   | .allFailed => { status := 502 }
   | .got ts f => { status := 200, warn := f > 0, body := .topics ts }
+
+/-! `/api/topics?inactive=true` (nsqlookupd mode): for every topic of the list, `/lookup?topic=` on every
+nsqlookupd; a topic without any producer is listed with the union of `/channels?topic=`. The unchanged code
+throws both errors away (`producers, _ :=`, `topicChannels, _ :=`); with F58 a partial error goes into the
+warning and a total one is a 502, as in every other handler. -/
+
+def unionNames (answers : List (Option (List String))) : Fetched (List String) :=
+  if countFailed answers == answers.length then .allFailed
+  else .got (sortNames (uniq (answers.filterMap id).flatten)) (countFailed answers)
+
+def lookupFor (w : World) (l : Lookupd) (t : String) : Option (List (Option ProducerJSON)) :=
+  match w.perTopic.find? (fun a => a.lk == l.addr && a.topic == t) with
+  | some a => a.lookup
+  | none => l.lookup
+
+def channelsFor (w : World) (l : Lookupd) (t : String) : Option (List String) :=
+  match w.perTopic.find? (fun a => a.lk == l.addr && a.topic == t) with
+  | some a => a.channels
+  | none => some []
+
+/-- The nsqlookupds as topic `t` sees them. -/
+def lookupdsFor (w : World) (t : String) : List Lookupd :=
+  w.lookupds.map (fun l => { l with lookup := lookupFor w l t })
+
+def channelAnswers (w : World) (t : String) : List (Option (List String)) :=
+  w.lookupds.map (fun l => channelsFor w l t)
+
+/-- One pass of the loop. `none` = the handler answers 502; `some (none, warn)` = the topic has a producer;
+`some (some cs, warn)` = inactive, with channels `cs`. -/
+def inactiveStep (fx : Fixes) (w : World) (t : String) :
+    Except Fault (Option (Option (List String) × Bool)) :=
+  match lookupdTopicProducers fx (lookupdsFor w t) with
+  | .error e => .error e
+  | .ok .allFailed =>
+    if fx.inactiveErrs then .ok none
+    else
+      -- `producers` is nil: the topic counts as inactive
+      (match unionNames (channelAnswers w t) with
+       | .allFailed => .ok (some (some [], false))
+       | .got cs _ => .ok (some (some cs, false)))
+  | .ok (.got ps f1) =>
+    if !ps.isEmpty then .ok (some (none, fx.inactiveErrs && decide (f1 > 0)))
+    else
+      match unionNames (channelAnswers w t) with
+      | .allFailed => if fx.inactiveErrs then .ok none else .ok (some (some [], false))
+      | .got cs f2 => .ok (some (some cs, fx.inactiveErrs && (decide (f1 > 0) || decide (f2 > 0))))
+
+def inactiveGo (fx : Fixes) (w : World) : List String → Except Fault (Option (List (String × List String) × Bool))
+  | [] => .ok (some ([], false))
+  | t :: rest =>
+    match inactiveStep fx w t with
+    | .error e => .error e
+    | .ok none => .ok none
+    | .ok (some (r, wn)) =>
+      match inactiveGo fx w rest with
+      | .error e => .error e
+      | .ok none => .ok none
+      | .ok (some (acc, wn')) =>
+        .ok (some ((match r with | some cs => [(t, cs)] | none => []) ++ acc, wn || wn'))
+
+def topicsInactiveView (fx : Fixes) (w : World) : Except Fault View :=
+  if w.lookupds.isEmpty then
+    -- direct mode: `goto respond` with the empty map; the warning of GetNSQDTopics is kept
+    (match nsqdTopics w with
+     | .allFailed => .ok { status := 502 }
+     | .got _ f => .ok { status := 200, warn := f > 0, body := .inactive [] })
+  else
+    match lookupdTopics w.lookupds with
+    | .allFailed => .ok { status := 502 }
+    | .got ts f =>
+      match inactiveGo fx w ts with
+      | .error e => .error e
+      | .ok none => .ok { status := 502 }
+      | .ok (some (m, wn)) => .ok { status := 200, warn := f > 0 || wn, body := .inactive m }
 
 def topicView (fx : Fixes) (w : World) (name : String) : Except Fault View :=
   match getTopicProducers fx w name with
@@ -747,5 +847,6 @@ def view (fx : Fixes) (w : World) : Request → Except Fault View
   | .nodes => nodesView fx w
   | .node a => nodeView fx w a
   | .counter => counterView fx w
+  | .topicsInactive => topicsInactiveView fx w
 
 end Nsq.Model.Aggregate
